@@ -563,7 +563,10 @@ theorem ruleMerge_noRetr (db : Db) (c : Nat) (p : Plan) : (ruleMerge db c p).noR
   unfold ruleMerge; split <;> rfl
 
 theorem ruleLookup_noRetr (db : Db) (c : Nat) (p : Plan) : (ruleLookup db c p).noRetr = p.noRetr := by
-  unfold ruleLookup; split <;> rfl
+  unfold ruleLookup
+  split
+  · simp only [Plan.noRetr, wrapFilter_noRetr]
+  · rfl
 
 theorem ruleBranch_noRetr (db : Db) (c : Nat) (p : Plan) : (ruleBranch db c p).noRetr = p.noRetr := by
   unfold ruleBranch
@@ -592,7 +595,7 @@ theorem transform_noRetr (db : Db) (f : Db → Nat → Plan → Plan) (hf : ∀ 
   | map es s ih => intro c; simp only [transform, hf, Plan.noRetr, ih]
   | streamJoin kl kr l r ihl ihr => intro c; simp only [transform, hf, Plan.noRetr, ihl, ihr]
   | outerJoin a b kl kr l r ihl ihr => intro c; simp only [transform, hf, Plan.noRetr, ihl, ihr]
-  | lookupJoin s j _ _ => intro c; simp only [transform, hf, Plan.noRetr]
+  | lookupJoin s j ihs ihj => intro c; simp only [transform, hf, Plan.noRetr, ihs, ihj]
 
 theorem optPass_noRetr (db : Db) (p : Plan) : (optPass db p).noRetr = p.noRetr := by
   unfold optPass
